@@ -20,6 +20,10 @@ def gen(rng, tier):
     ctx.enabled = G.swarm_subset(rng, names, 0.75, always=("from_array", "rechunk", "binary"))
     ctx.enabled.discard("random") if rng.random() < 0.5 else None
     ctx.weights = {"random": 0.6, "rechunk": 4.0, "setitem_fn": 1.5, "window": 1.5, "cumulative": 1.5}
+    if rng.random() < 0.3:
+        # index collections shared between a take and other consumers (kernels that normalise indices)
+        ctx.enabled |= {"int_index", "take_dask"}
+        ctx.weights.update({"int_index": 2.0, "take_dask": 4.0})
     ctx.p_simsource = rng.choice([0.0, 0.0, 0.3])
     ctx.p_masked = rng.choice([0.0, 0.05, 0.15])
     n = rng.randint(2, 9)
